@@ -1,8 +1,8 @@
 import EpsicModel.Quat
 /-! `calculate_Jacobi` (`src/util/Jacobi.h`): the rotation parameters of one Jacobi step, for a real
 symmetric and for a complex Hermitian 2×2 pivot block.  `abs`, `sqrt` and the comparisons are
-parameters (leaves); the n×n sweep itself is not modelled (it is exercised through the residual
-oracle of the harness). -/
+parameters (leaves).  The n×n real symmetric solver follows in the second half of the file; the complex
+Hermitian sweep is not modelled (it is exercised through the residual oracle of the harness). -/
 namespace Epsic.Jacobi
 open Epsic
 variable {α : Type} [Arith α]
@@ -48,5 +48,121 @@ def calculateComplex (sqrtFn : α → R α) (ltZero : α → Bool) (p q : α) (p
   let tau : Cx α := ⟨s.conj.re / d, s.conj.im / d⟩
   let corr := two * (c * (s * pq.conj).re + sq * (s * s.conj).re)
   pure ⟨s, tau, corr⟩
+
+end Epsic.Jacobi
+
+/-! ### The n×n real symmetric solver (`rotate_Jacobi`, `JacobiRotation`, `Jacobi`)
+
+The whole matrix is rotated (the `#else` branch of `JacobiRotation`): columns `ip`,`iq` of `a`, then
+rows `ip`,`iq` of `a`, then rows `ip`,`iq` of the eigenvector matrix.  Every loop is a left fold in
+the order of the C++ loop; `abs`, `sqrt`, `==`, `<`, `>` and the constants `100.0`, `0.2` are leaves. -/
+namespace Epsic.Jacobi
+open Epsic
+
+structure SolverLeaves (α : Type) where
+  abs : α → α
+  sqrt : α → α
+  eq : α → α → Bool
+  ltZero : α → Bool
+  gt : α → α → Bool
+  hundred : α
+  fifth : α
+
+variable {α : Type} [Arith α] {n : Nat}
+
+def setM (x : Mat n n α) (i j : Fin n) (val : α) : Mat n n α := fun a b => if a = i ∧ b = j then val else x a b
+def setV (x : Vec n α) (i : Fin n) (val : α) : Vec n α := fun a => if a = i then val else x a
+
+/-- a vector as stored data (see `Mat.Frozen`) -/
+structure FrozenV (n : Nat) (α : Type) where
+  arr : Array α
+def freezeV (v : Vec n α) : FrozenV n α := ⟨Array.ofFn (fun i : Fin n => v i)⟩
+def thawV (f : FrozenV n α) : Vec n α := fun i => (f.arr[i.val]?).getD zero
+@[simp] theorem thawV_freezeV (v : Vec n α) : thawV (freezeV v) = v := by
+  funext i
+  simp [thawV, freezeV, i.isLt]
+
+/-- `rotate_Jacobi (x, s, tau, i, j, k, l)` for a real scalar (`myconj` is the identity):
+`g = x[i][j]; h = x[k][l]; x[i][j] -= s*(h+g*tau); x[k][l] += s*(g-h*tau)` -/
+def rotatePair (x : Mat n n α) (s tau : α) (i j k l : Fin n) : Mat n n α :=
+  let g := x i j
+  let h := x k l
+  setM (setM x i j (g - s*(h + g*tau))) k l (h + s*(g - h*tau))
+
+/-- a left fold over matrices that stores the matrix after every step (the result is stored data, so a
+`let` evaluates it once) -/
+def foldStored {β : Type} (f : Mat n n α → β → Mat n n α) (l : List β) (x : Mat n n α) : Mat.Frozen n n α :=
+  l.foldl (fun acc j => Mat.freeze (f (Mat.thaw acc) j)) (Mat.freeze x)
+
+/-- `for (j<RC) rotate_Jacobi(a,s,tau,j,ip,j,iq)` -/
+def colPass (x : Mat n n α) (s tau : α) (p q : Fin n) : Mat.Frozen n n α :=
+  foldStored (fun acc j => rotatePair acc s tau j p j q) (List.finRange n) x
+/-- `for (j<RC) rotate_Jacobi(a,s,tau,ip,j,iq,j)` -/
+def rowPass (x : Mat n n α) (s tau : α) (p q : Fin n) : Mat.Frozen n n α :=
+  foldStored (fun acc j => rotatePair acc s tau p j q j) (List.finRange n) x
+
+/-- `a`, `evec`, `eval`, `b`, `z` of `Jacobi` -/
+structure SolverState (n : Nat) (α : Type) where
+  a : Mat n n α
+  v : Mat n n α
+  d : Vec n α
+  b : Vec n α
+  z : Vec n α
+
+/-- `JacobiRotation (ip, iq, a, v, d)` followed by `z[ip] -= correction; z[iq] += correction` -/
+def rotation (L : SolverLeaves α) (st : SolverState n α) (p q : Fin n) : SolverState n α :=
+  let r := calculateReal L.abs L.sqrt L.eq L.ltZero L.hundred (st.d p) (st.d q) (st.a p q)
+  let d1 := setV st.d p (st.d p - r.correction)
+  let d2 := setV d1 q (d1 q + r.correction)
+  let a1 := colPass st.a r.s r.tau p q
+  let a2 := rowPass (Mat.thaw a1) r.s r.tau p q
+  let a3 := Mat.freeze (setM (setM (Mat.thaw a2) p q zero) q p zero)
+  let v1 := rowPass st.v r.s r.tau p q
+  let z1 := setV st.z p (st.z p - r.correction)
+  let z2 := setV z1 q (z1 q + r.correction)
+  let fd := freezeV d2
+  let fz := freezeV z2
+  ⟨Mat.thaw a3, Mat.thaw v1, thawV fd, st.b, thawV fz⟩
+
+/-- the body of the double loop over `ip < iq` in sweep number `iter` -/
+def pairStep (L : SolverLeaves α) (iter : Nat) (thresh : α) (st : SolverState n α) (pq : Fin n × Fin n) : SolverState n α :=
+  let p := pq.1
+  let q := pq.2
+  let g := L.hundred * L.abs (st.a p q)
+  if decide (iter > 4) && L.eq (L.abs (st.d p) + g) (L.abs (st.d p)) && L.eq (L.abs (st.d q) + g) (L.abs (st.d q)) then
+    { st with a := setM (setM st.a q p zero) p q zero }
+  else if L.gt (L.abs (st.a p q)) thresh then rotation L st p q
+  else st
+
+/-- the index pairs `ip < iq` in loop order -/
+def pairs (n : Nat) : List (Fin n × Fin n) :=
+  (List.finRange n).flatMap (fun p => (List.finRange n).filterMap (fun q => if p < q then some (p, q) else none))
+
+/-- `sum += norm(a[ip][iq])` over the upper triangle -/
+def offSum (L : SolverLeaves α) (a : Mat n n α) : α :=
+  (pairs n).foldl (fun acc pq => acc + L.abs (a pq.1 pq.2)) zero
+
+/-- `b[ip] += z[ip]; eval[ip] = b[ip]; z[ip] = 0` -/
+def endSweep (st : SolverState n α) : SolverState n α :=
+  let fb := freezeV (fun i => st.b i + st.z i)
+  { st with b := thawV fb, d := thawV fb, z := fun _ => zero }
+
+/-- one pass of the `for (iter…)` loop body after the `sum == 0` test -/
+def sweep (L : SolverLeaves α) (iter : Nat) (sum : α) (st : SolverState n α) : SolverState n α :=
+  let thresh := if iter < 4 then L.fifth * sum / Arith.ofNat (n*n) else zero
+  endSweep ((pairs n).foldl (pairStep L iter thresh) st)
+
+/-- `fuel` further iterations starting at sweep number `iter`; `return` when the off-diagonal sum is zero -/
+def iterate (L : SolverLeaves α) : Nat → Nat → SolverState n α → SolverState n α
+  | 0, _, st => st
+  | fuel+1, iter, st =>
+    let sum := offSum L st.a
+    if Arith.eq0 sum then st else iterate L fuel (iter+1) (sweep L iter sum st)
+
+def initState (a : Mat n n α) : SolverState n α :=
+  ⟨a, Mat.identity, fun i => a i i, fun i => a i i, fun _ => zero⟩
+
+/-- `Jacobi (a, evec, eval)`: 50 sweeps at most -/
+def jacobi (L : SolverLeaves α) (a : Mat n n α) : SolverState n α := iterate L 50 0 (initState a)
 
 end Epsic.Jacobi
